@@ -10,7 +10,7 @@ from ufoverif.runner import Discard, Violation, guard
 ID = "C11"
 RULE = (
     "case = (2-10 glyph names with suffixes, ligature underscores, uniXXXX look-alikes, illegal characters, > 63 characters, 16-part ligatures, names equal to "
-    "generated '.N' suffix names; code points BMP/supplementary; optional public.postscriptNames with duplicates, empty strings, illegal characters, swaps and "
+    "generated '.N' suffix names; code points BMP/supplementary, 1-3 per glyph in arbitrary source order; optional public.postscriptNames with duplicates, empty strings, illegal characters, swaps and "
     "values colliding with other source names; kerning + a GSUB feature + a composite so every table has content; lib switches useProductionNames / keepGlyphNames "
     "vs explicit argument) x {TTF, CFF, CFF2} x {ufoLib2, defcon}; oracle = compile with production names on and off: every table except post / CFF is "
     "byte-identical (head modulo checkSumAdjustment), CFF charstrings/widths equal by glyph index, final names unique, legal ([0-9A-Za-z_.]), equal to the "
@@ -28,6 +28,7 @@ LONGLIG = "_".join(["A-cy"] * 16)
 NAMEPOOL = ["a", "b", "a.alt", "a.sc", "f_i", "f_f_i", "f_i.alt", "uni0061", "uni0061.1", "u1F600", "uni00610062", "a_b", "A-cy", "x@y", "naïve", "L" * 70,
             "f", "i", "_part", "a.alt.1", "b.alt", "a.1", "ab", "a-b", "ab.1", "one", "two", LONGLIG, "A", "uni0041"]
 CPS = [0x61, 0x62, 0x66, 0x69, 0x1F600, 0x410, 0x41, 0x31, 0x32]
+EXTRA_CPS = [0x3A9, 0x2126, 0x263A, 0x212A, 0x4B, 0x1F601, 0x100, 0x20]
 LEGAL = re.compile(r"^[0-9A-Za-z_.]*$")
 INVALID = re.compile(r"[^0-9a-zA-Z_.]")
 
@@ -40,8 +41,13 @@ def _case(draw):
     cps = draw(st.lists(st.sampled_from(CPS), unique=True, max_size=len(names)))
     perm = draw(st.permutations(names))
     glyphs = []
+    extra = list(draw(st.permutations(EXTRA_CPS)))
     for i, n in enumerate(perm):
-        glyphs.append({"name": n, "width": 500 + i, "unicodes": [cps[i]] if i < len(cps) else [], "contours": [[[0, 0, "line"], [100 + i, 0, "line"], [100, 100 + 3 * i, "line"]]]})
+        us = [cps[i]] if i < len(cps) else []
+        if us and extra and draw(st.sampled_from([False, False, True])):
+            # several code points on one glyph, in source order: the first one (not the smallest) names the glyph
+            us = list(draw(st.permutations(us + [extra.pop() for _ in range(min(len(extra), draw(st.integers(1, 2))))])))
+        glyphs.append({"name": n, "width": 500 + i, "unicodes": us, "contours": [[[0, 0, "line"], [100 + i, 0, "line"], [100, 100 + 3 * i, "line"]]]})
     if draw(st.booleans()):
         glyphs.append({"name": "comp", "width": 300, "components": [{"base": perm[0], "t": [1, 0, 0, 1, 10, 0]}]})
     spec = {"info": {"unitsPerEm": 1000}, "glyphs": glyphs, "lib": {}}
@@ -197,6 +203,8 @@ def run_case(case, ctx):
         ctx.nontrivial(True)
     if spec["lib"].get("public.postscriptNames"):
         ctx.label("postscriptNames")
+    if any(len(g.get("unicodes") or []) > 1 and g["unicodes"][0] != min(g["unicodes"]) for g in spec["glyphs"]):
+        ctx.label("first-code-point-not-smallest")
     ctx.label(flavour)
     ctx.label("switch=" + case["switch"])
 
